@@ -13,6 +13,26 @@ import (
 // never on Go's randomized map iteration order.
 func sortedMapKeys(m reflect.Value) []reflect.Value {
 	keys := m.MapKeys()
+	// rank groups keys by kind so that the order is total even for map[interface{}]… with
+	// mixed key types: numbers first (numerically), then strings, then everything else
+	rank := func(v reflect.Value) int {
+		switch {
+		case v.CanInt() || v.CanUint() || v.CanFloat():
+			return 0
+		case v.Kind() == reflect.String:
+			return 1
+		}
+		return 2
+	}
+	num := func(v reflect.Value) float64 {
+		switch {
+		case v.CanInt():
+			return float64(v.Int())
+		case v.CanUint():
+			return float64(v.Uint())
+		}
+		return v.Float()
+	}
 	sort.SliceStable(keys, func(i, j int) bool {
 		a, b := keys[i], keys[j]
 		for a.Kind() == reflect.Interface && !a.IsNil() {
@@ -21,14 +41,20 @@ func sortedMapKeys(m reflect.Value) []reflect.Value {
 		for b.Kind() == reflect.Interface && !b.IsNil() {
 			b = b.Elem()
 		}
+		if ra, rb := rank(a), rank(b); ra != rb {
+			return ra < rb
+		}
 		switch {
 		case a.CanInt() && b.CanInt():
 			return a.Int() < b.Int()
 		case a.CanUint() && b.CanUint():
 			return a.Uint() < b.Uint()
-		case a.CanFloat() && b.CanFloat():
-			return a.Float() < b.Float()
-		case a.Kind() == reflect.String && b.Kind() == reflect.String:
+		case rank(a) == 0:
+			if na, nb := num(a), num(b); na != nb {
+				return na < nb
+			}
+			return a.Kind() < b.Kind()
+		case a.Kind() == reflect.String:
 			return a.String() < b.String()
 		}
 		return fmt.Sprint(a) < fmt.Sprint(b)
